@@ -429,6 +429,20 @@ def gen_script(rng, nstmts):
             # the same statement once more on this planner, from a copy of the cached parsed template (a server-side
             # statement cache): what the first session did to *its* copy must not show here
             s += [['Pc', si], ['A*', 'ok'], ['I'], ['X'], ['E*']]
+    if nstmts >= 2 and rng.random() < 0.18:
+        # late consumption: the generator returned by execute_steps(values) of one statement is only iterated after the same
+        # planner has prepared (and perhaps executed) the next statement.  The values were bound when execute_steps was
+        # called, so what it yields must still be the plan of *that* statement with *those* values.
+        a, b = nstmts - 2, nstmts - 1
+        s = [op for op in s if not (op[0] in ('P', 'Pc') and op[1] == b)]
+        cut = max(i for i, op in enumerate(s) if op[0] in ('P', 'Pc') and op[1] == a)
+        s = s[:cut] + [['P', a], ['A*', 'ok'], ['I'], ['X'], ['H'], ['P', b]]
+        if rng.random() < 0.6:
+            s.append(['A*', 'ok'])
+        r = rng.random()
+        if r < 0.35:
+            s += [['X'], ['H2']]
+        s.append(['EH*'])
     return s
 
 
@@ -524,6 +538,7 @@ class Session:
         self.pending_all = None
         self.templates = {}
         self.shared_vals = None
+        self.held = None
 
     # -- model side
     def n(self):
@@ -603,7 +618,7 @@ class Session:
                 self.obs['prepare_raised:' + type(e).__name__] += 1
                 self.log.append('P err ' + O.exc_obs(e))
             return True
-        if self.state == 'failed' or self.cur is None:
+        if (self.state == 'failed' or self.cur is None) and k != 'EH*':
             self.log.append(k + ' skipped')
             return True
         if k in ('A', 'A*'):
@@ -721,6 +736,43 @@ class Session:
                 if n and self.pc % 2:
                     vo.pop()
             self.log.append('M')
+            return True
+        if k == 'H':
+            # keep the not yet iterated execute generator of this statement for later
+            if self.state == 'executing' and self.gen is not None and not self.steps:
+                self.held = (self.gen, self.cur, self.values())
+                self.gen = None
+                self.state = 'held'
+                self.obs['execution_held'] += 1
+            self.log.append('H')
+            return True
+        if k == 'H2':
+            # the next statement's execute generator is dropped un-iterated (its values are bound, nothing is planned)
+            if self.held is not None and self.state == 'executing':
+                self.gen = None
+                self.state = 'failed'
+            self.log.append('H2')
+            return True
+        if k == 'EH*':
+            if self.held is None:
+                return True
+            g, stmt, vals = self.held
+            self.held = None
+            cur, self.cur = self.cur, stmt
+            self.steps, self.exec_err = [], None
+            try:
+                for st in g:
+                    executor_answer(st, 'ok')
+                    self.steps.append(st)
+            except Exception as e:
+                self.exec_err = O.exc_obs(e)
+            self.obs['execution_consumed_late'] += 1
+            self._judge_execution(complete=True, vals=vals, what='execute (generator iterated after the planner prepared the next statement)')
+            self.cur = cur
+            # consuming the old generator re-plans on this planner (from_query): what the planner does for the newer statement
+            # afterwards is the unjudged territory of two statements sharing one planner
+            self.state = 'failed'
+            self.log.append('EH*')
             return True
         if k in ('E', 'E*'):
             if self.state != 'executing' or self.gen is None:
